@@ -159,7 +159,35 @@ func TestC20_Node(t *testing.T) {
 			x := p.insts[rapid.IntRange(0, len(p.insts)-1).Draw(rt, "inst")]
 			in = &x
 		}
-		if in != nil && rapid.Bool().Draw(rt, "validpath") {
+		structural := false
+		if rapid.IntRange(0, 4).Draw(rt, "structural") == 0 {
+			// a valid path to a container or list entry, present in the base tree or not
+			if tg := model.PickTarget(rt, p.v, p.m, model.TargetOpts{AllowOrdered: true, AllowWholeList: true}); tg != nil && tg.F != nil && tg.F.Kind != model.FLeaf && tg.F.Kind != model.FLeafList {
+				c.Path = model.PathProto(tg.Elems)
+				structural = true
+				classes = append(classes, "path-mut:none", "path-base:structural")
+				if tg.Exists {
+					classes = append(classes, "path-base:structural-exists")
+				}
+				if c.Op == 1 {
+					switch rapid.IntRange(0, 3).Draw(rt, "doc") {
+					case 0:
+						c.Val = model.JSONIETFTV([]byte("{}"))
+					case 1:
+						c.Val = model.JSONIETFTV([]byte(rapid.SampledFrom(jsonSnippets).Draw(rt, "snippet")))
+					default:
+						if tg.F.Child != nil && (tg.F.Kind == model.FCont || tg.AtEntry) {
+							c.Val = model.JSONIETFTV(model.RenderJSON(model.GenNode(rt, tg.F.Child, model.GenOpts{Sparse: true, NoUnkeyed: true}), model.JSONOpts{Prefix: rapid.Bool().Draw(rt, "docprefix")}))
+						} else {
+							c.Val = model.JSONIETFTV([]byte("[]"))
+						}
+					}
+					classes = append(classes, "tv:json-ietf-doc")
+				}
+			}
+		}
+		if structural {
+		} else if in != nil && rapid.Bool().Draw(rt, "validpath") {
 			c.Path = model.PathProto(in.Elems)
 			classes = append(classes, "path-mut:none", "path-base:leaf")
 		} else {
@@ -167,7 +195,7 @@ func TestC20_Node(t *testing.T) {
 			c.Path, pc = oddPath(rt, p, "path")
 			classes = append(classes, pc...)
 		}
-		if c.Op == 1 {
+		if c.Op == 1 && c.Val == nil {
 			var k string
 			c.Val, k = oddTV(rt, in, "val")
 			classes = append(classes, "tv:"+k)
